@@ -39,6 +39,16 @@ Theorem C09_boilerplate_layout : forall header bt gb yr gn,
 Proof. exact boilerplate_layout. Qed.
 Print Assumptions C09_boilerplate_layout.
 
+(* writing the file: whatever was there before is gone (create truncates); the formatted text is
+   written and no error returned, or, when the formatter rejects the text, the unformatted text is
+   still written and an error IS returned *)
+Theorem C09_write_result : forall prev text formatted,
+  assemble_file prev text formatted =
+    match formatted with Some f => (f, false) | None => (text, true) end /\
+  assemble_file prev text formatted = assemble_file None text formatted.
+Proof. intros prev text [f|]; split; reflexivity. Qed.
+Print Assumptions C09_write_result.
+
 Example C09_example :
   assemble {| a_header := s "// h"; a_pkg := s "p"; a_imports := [s "fmt"; s "x ""e/x"""]; a_vars := []; a_consts := s "c = 1"; a_body := s "func F() {}" |}
   = s "// hpackage p" ++ [NL; NL] ++ s "import (" ++ [NL; TAB] ++ s """fmt""" ++ [NL; TAB] ++ s "x ""e/x""" ++ [NL] ++ s ")" ++ [NL; NL] ++
